@@ -56,9 +56,9 @@ func main() {
 		return
 	}
 	h.corpus(f.Corpus)
-	h.buildCases(r.Fork(), f.N(40, 500))
+	h.buildCases(r.Fork(), f.N(30, 500))
 	h.reuseCases(r.Fork(), f.N(60, 1500))
-	h.e2eCases(r.Fork(), f.N(4, 40))
+	h.e2eCases(r.Fork(), f.N(3, 40), f.Tier == "thorough")
 }
 
 // ---------------------------------------------------------------- replay / corpus
@@ -857,7 +857,7 @@ func trunc(s string) string {
 	return s
 }
 
-func (h *harness) e2eCases(r *gen.Rand, n int) {
+func (h *harness) e2eCases(r *gen.Rand, n int, large bool) {
 	for i := 0; i < n; i++ {
 		var e e2eCase
 		nr := gen.Pick(r, []int{1, 2, 3})
@@ -867,7 +867,10 @@ func (h *harness) e2eCases(r *gen.Rand, n int) {
 			for k := 0; k < nb; k++ {
 				rp.Branches = append(rp.Branches, fmt.Sprintf("b%d", k))
 			}
-			nd := gen.Pick(r, []int{1, 3, 8, 20})
+			nd := gen.Pick(r, []int{1, 3, 6, 12})
+			if large {
+				nd = gen.Pick(r, []int{1, 3, 8, 20})
+			}
 			for k := 0; k < nd; k++ {
 				rp.Docs = append(rp.Docs, genDoc(r, k, rp.Branches, gen.Pick(r, []int{10, 40, 120})))
 			}
